@@ -11,6 +11,7 @@ import EaselModel.Msafile.Stockholm
 import EaselModel.Msafile.Dump
 import EaselModel.Msafile.Guess
 import EaselModel.Msafile.StoNum
+import EaselModel.Msafile.OpenByName
 /-! Line-protocol driver for the C01 model: `parse fmt=… abc=… src=… ps=… [sfx=…] hex=…`.  The page size is irrelevant to the
     model (it sits on the abstract line reader); the source only decides whether the buffer has a file name
     (`esl_msafile_Open`: `h_msafile_<pid>.<sfx>`; memory and streams have none), which format autodetection looks at.
@@ -89,11 +90,29 @@ def probeOp (ws : List String) : String :=
     "first=" ++ first ++ " ilv=" ++ ilv ++ " sk=" ++ toString (checkSeqKnown 10 lines) ++ " su=" ++ su ++ " slx=" ++ toString (checkSelex lines)
   | none => "unmodelled"
 
+/-- `openerr what=<missing|dir|envmissing|envfile> fmt= abc= [sfx=] [hex=]`: `esl_msafile_Open` by name.  The harness names the file
+    `h_msafile_<pid>.<sfx>` (in a directory reached through the environment list for `envfile`): only the suffix matters to the model. -/
+def openErrOp (ws : List String) : String :=
+  match (arg? ws "fmt").bind fmtSelOf, abcSelOf ((arg? ws "abc").getD "text") with
+  | some fs, some as =>
+    let what := (arg? ws "what").getD "missing"
+    let path : Bytes := [104, 95, 109, 115, 97, 102, 105, 108, 101, 95, 48, 46] ++ ((arg? ws "sfx").getD "dat").toUTF8.toList
+    let bytes := (argHex? ws "hex").getD []
+    let pk : PathKind := if what == "envfile" then .file path bytes else if what == "dir" then .directory else .missing
+    match openByName 0 fs as pk with
+    | .enotfound _ => "open=enotfound"
+    | .opened .enoformat => "open=enoformat"
+    | .opened .enoalphabet => "open=enoalphabet"
+    | .opened .fault => "fault"
+    | .opened (.ok o) => "open=ok fmt=" ++ fmtName o.fmt ++ " abc=" ++ abcName o.abc ++ readAll o.readV 64 (splitLines bytes)
+  | _, _ => "unmodelled"
+
 def step (s : Unit) (line : String) : Unit × String :=
   let ws := words line
   match ws with
   | "parse" :: _ => (s, parseOp ws)
   | "probe" :: _ => (s, probeOp ws)
+  | "openerr" :: _ => (s, openErrOp ws)
   | _ => (s, "unmodelled")
 
 def main : IO Unit := runDriver () step
